@@ -1,15 +1,21 @@
 import RtVerif.Base.Bytes
 import RtVerif.Base.Verdict
 import RtVerif.Base.GoURL
+import RtVerif.Base.GoURLParse
+import RtVerif.Base.GoPath
+import RtVerif.Base.GoQuery
 /-
   C10 — client URLs (tail of `request.buildHTTP`, `Runtime.pickScheme/selectScheme`).
 
   Modelled: the static-query merge (caller > pattern > base path), the placeholder substitution as
   the code does it — a *sequential* `strings.ReplaceAll` fold over the parameter map in an explicit
   order —, the trailing-slash reinstatement, and the scheme choice.
-  Inputs rather than models (stdlib): `url.Parse` of base path and pattern (the harness passes the
-  parsed `.Path` and `.Query()`), `path.Join` (the joined path is passed in), `url.Values.Encode`
-  and `http.NewRequest`'s re-parse (the harness reports the resulting escaped path and query).
+  End to end (`build`): `url.Parse` of base path and pattern (hand model `GoURLParse.parse`), their
+  `.Query()` (`GoQuery.parseQuery`), `path.Join` (`GoPath.join`), the substitution loop, the
+  re-parse of the built string by `http.NewRequest` (`GoURLParse.parse` again — this is where the
+  known findings F10a and F10b live), `URL.EscapedPath()` and `url.Values.Encode` for `RawQuery`.
+  The stdlib functions are hand models validated by correspondence streams (U, E here; G of C20;
+  V E / V P of C04); nothing of the URL is passed in from the Go side any more.
 -/
 namespace RtVerif.C10
 open RtVerif Bytes
@@ -149,6 +155,88 @@ def pickScheme (runtimeSchemes opSchemes : List Bytes) : Bytes :=
     let b := selectScheme opSchemes
     if !b.isEmpty then b else http
 
+/-! ## end to end: `Runtime.CreateHttpRequest` as far as the URL is concerned -/
+
+/-- `client.New`: a base path without a leading slash gets one -/
+def newBasePath (b : Bytes) : Bytes := if Bytes.hasPrefix b [47] then b else 47 :: b
+
+/-- `u.Query()`: `ParseQuery(u.RawQuery)`, errors ignored -/
+def queryOf (u : GoURLParse.URL) : Values := (GoQuery.parseQuery u.rawQuery).values
+
+/-- the string `buildHTTP` hands to `http.NewRequest`, from the two parsed URLs -/
+def builtPath (bu pu : GoURLParse.URL) (params : List (Bytes × Bytes)) : Bytes :=
+  urlPath (GoPath.join bu.path pu.path) pu.path params
+
+/-- `req.URL` after `buildHTTP` and `createHttpRequest`: the re-parsed built path, `RawQuery`
+replaced by the encoded merged query, scheme and host set by the runtime -/
+def finishURL (u bu pu : GoURLParse.URL) (caller : Values) (scheme host : Bytes) : GoURLParse.URL :=
+  { u with scheme := scheme, host := host,
+           rawQuery := GoQuery.encode (finalQuery (queryOf bu) (queryOf pu) caller) }
+
+/-- the request URL `CreateHttpRequest` returns for a runtime with base path `basePath`, host `host`
+and the chosen `scheme`; `none` when it returns an error (a URL that does not parse) -/
+def build (basePath pattern : Bytes) (params : List (Bytes × Bytes)) (caller : Values)
+    (scheme host : Bytes) : Option GoURLParse.URL :=
+  match GoURLParse.parse basePath, GoURLParse.parse pattern with
+  | some bu, some pu =>
+    match GoURLParse.parse (builtPath bu pu params) with
+    | some u => some (finishURL u bu pu caller scheme host)
+    | none => none
+  | _, _ => none
+
+/-! ## Known findings (classes on the built string) -/
+
+/-- F10a: the built string starts with `//` (and not `///`): net/url reads an authority -/
+def f10a (up : Bytes) : Bool := GoURLParse.takesAuthority [] up
+
+/-- F10b: the built string holds a byte net/url does not accept in an encoded path (static text it
+would escape — space, `"`, `<`, non-ASCII … — or a left-over `{name}`): `EscapedPath()` is then
+re-derived from the decoded path and the escapes of the values are lost -/
+def f10b (up : Bytes) : Bool := !GoURLParse.validEncoded up
+
+/-! ## Spec of the request path: segment by segment -/
+
+/-- what a segment of the joined pattern must decode to: static text as written, each placeholder
+that has a value replaced by the value itself -/
+def decodeTok (params : List (Bytes × Bytes)) : Tok → Bytes
+  | .lit b => b
+  | .ph n => match lookupParam params n with
+    | some v => v
+    | none => placeholder n
+
+def decodeSeg (params : List (Bytes × Bytes)) (seg : List Tok) : Bytes := seg.flatMap (decodeTok params)
+
+/-- the same segment as it is written into the URL -/
+def encodeTok (params : List (Bytes × Bytes)) : Tok → Bytes
+  | .lit b => b
+  | .ph n => match lookupParam params n with
+    | some v => GoURL.pathEscape v
+    | none => placeholder n
+
+def encodeSeg (params : List (Bytes × Bytes)) (seg : List Tok) : Bytes := seg.flatMap (encodeTok params)
+
+/-- `/s₁/s₂/…/sₙ` -/
+def joinRooted (l : List Bytes) : Bytes := l.flatMap (47 :: ·)
+
+def slashIf (b : Bool) : Bytes := if b then [47] else []
+
+/-- a clean rooted base path with the static segments `bs` (`/` when there are none) -/
+def basePathOf (bs : List Bytes) : Bytes := GoPath.render true bs
+
+/-- the pattern `/s₁/…/sₙ` (with a final `/` when `trailing`) whose segments are the token lists `psegs` -/
+def patternOf (psegs : List (List Tok)) (trailing : Bool) : Bytes :=
+  joinRooted (psegs.map render) ++ slashIf trailing
+
+/-- all segments of the request path: the base path's static ones, then the pattern's -/
+def allSegs (bs : List Bytes) (psegs : List (List Tok)) : List (List Tok) :=
+  bs.map (fun b => [Tok.lit b]) ++ psegs
+
+/-- the segments (split at `/`) of a path, each tokenised; `none` for unbalanced braces -/
+def segToks (p : Bytes) : Option (List (List Tok)) := (GoPath.segs p).mapM tokenize
+
+/-- the text of a URL before its query and fragment, read naively (Spec side) -/
+def pathPart (s : Bytes) : Bytes := GoURLParse.before 63 (GoURLParse.before 35 s)
+
 /-! ## Driver entry -/
 
 def decPairs (names vals : String) : Option (List (Bytes × Bytes)) := do
@@ -183,57 +271,115 @@ def encValues (vs : Values) : String :=
   let s := sortValues vs
   encList (s.map (·.1)) ++ " " ++ (if s.isEmpty then "." else "|".intercalate (s.map fun kv => encList kv.2))
 
+/-- a parsed URL as the harness prints it -/
+def encURL : Option GoURLParse.URL → String
+  | none => "ERR"
+  | some u =>
+    let b (x : Bool) := if x then "1" else "0"
+    let user := match u.user with
+      | none => "0 - -"
+      | some (n, none) => "1 " ++ encField n ++ " -"
+      | some (n, some p) => "2 " ++ encField n ++ " " ++ encField p
+    " ".intercalate [encField u.scheme, encField u.opaq, user, encField u.host, encField u.path, encField u.rawPath,
+      encField (GoURLParse.escapedPath u), b u.forceQuery, encField u.rawQuery, encField u.fragment,
+      encField u.rawFragment, b u.omitHost]
+
+def urlTag (raw : Bytes) : Option GoURLParse.URL → String
+  | none => "refused"
+  | some u =>
+    (if !u.scheme.isEmpty then (if !u.opaq.isEmpty then "opaque" else "scheme") else if raw.isEmpty then "~empty" else "rel") ++
+    (if u.user.isSome then "+user" else "") ++ (if !u.host.isEmpty then "+host" else "") ++
+    (if !u.rawPath.isEmpty then (if GoURLParse.escapedPath u == u.rawPath then "+rawpath" else "+rawpath-dropped") else "") ++
+    (if !u.rawQuery.isEmpty || u.forceQuery then "+query" else "") ++ (if !u.fragment.isEmpty then "+frag" else "")
+
+/-- Spec of the query: caller over pattern over base path, by key -/
+def specQuery (b p c : Values) : Values :=
+  let keys := (b.map (·.1) ++ p.map (·.1) ++ c.map (·.1)).eraseDups
+  keys.filterMap fun k =>
+    match Values.get c k with
+    | some v => some (k, v)
+    | none => match Values.get p k with
+      | some v => some (k, v)
+      | none => (Values.get b k).map fun v => (k, v)
+
+/-- the static query of a base path / pattern as the Spec reads it: the text after `?` -/
+def queryPart (s : Bytes) : Values := (GoQuery.parseQuery (GoURLParse.after 63 (GoURLParse.before 35 s))).values
+
+/-- is the model's reading of a base path / pattern the naive one (no scheme, no authority, no
+fragment, nothing percent-decoded)?  Otherwise the input is outside what the Spec speaks about. -/
+def plainInput (raw : Bytes) (u : GoURLParse.URL) : Bool :=
+  u.scheme.isEmpty && u.opaq.isEmpty && u.host.isEmpty && u.user.isNone && u.fragment.isEmpty &&
+  !raw.contains 35 && !u.forceQuery && u.path == pathPart raw
+
+def phNameOk : Tok → Bool
+  | .lit _ => true
+  | .ph n => !n.contains 47
+
+def asMap (vs : Values) : String := encValues (GoQuery.nonEmpty vs)
+
+/-- Spec of stream P, judged on the URL the real code produced (the 14 fields of `encURL`) -/
+def specP (host : Bytes) (want : List Bytes) (wantQuery : Values) (outs : List String) : Bool :=
+  match outs with
+  | [_, opaq, uflag, _, _, h, _, _, esc, fq, rq, frag, _, _] =>
+    match decField esc, decField rq with
+    | some e, some q =>
+      -- the escaped path has exactly the wanted segments
+      (GoPath.segs e).mapM GoURL.pathUnescape == some want &&
+      -- no value added a query, a fragment, an authority
+      opaq == "-" && uflag == "0" && h == encField host && fq == "0" && frag == "-" &&
+      -- the query is the merged one
+      asMap (GoQuery.parseQuery q).values == asMap wantQuery
+    | _, _ => false
+  | _ => false
+
+def judgeP (host base pattern : Bytes) (params : List (Bytes × Bytes)) (caller : Values) (outs : List String) : Verdict :=
+  let o := " ".intercalate outs
+  let mOf (ps : List (Bytes × Bytes)) := encURL (build base pattern ps caller http host)
+  let m := mOf params
+  let anyOrder := (perms params).any fun ps => mOf ps == o
+  match GoURLParse.parse base, GoURLParse.parse pattern with
+  | some bu, some pu =>
+    let up := builtPath bu pu params
+    let joined := GoPath.join (pathPart base) (pathPart pattern)
+    let distinct := (params.map (·.1)).eraseDups.length == params.length
+    let namesOk := params.all fun kv => braceFree kv.1
+    let plain := plainInput base bu && plainInput pattern pu
+    let odd (why : String) : Verdict :=
+      if outs.head? == some "ORDER-DEPENDENT" then { agree := true, specOk := true, tag := "~P:order-dependent-" ++ why, model := m }
+      else { agree := anyOrder, specOk := true, tag := "~P:" ++ why, model := m }
+    match tokenize joined, segToks joined with
+    | some toks, some segs =>
+      if !plain then odd "odd-input"
+      else if !Bytes.hasPrefix base [47] then odd "unrooted-base"   -- not what `client.New` leaves in `Runtime.BasePath`
+      else if !(distinct && namesOk && toks.all phNameOk) then odd "odd-names"
+      else
+        let want := segs.map (decodeSeg params) ++ (if keepsSlash (pathPart pattern) then [[]] else [])
+        let wantQuery := specQuery (queryPart base) (queryPart pattern) caller
+        let nph := (toks.filter fun t => match t with | .ph _ => true | _ => false).length
+        let missing := toks.any fun t => match t with | .ph n => (lookupParam params n).isNone | _ => false
+        let cls := if f10a up then "authority" else if f10b up then (if missing then "leftover" else "reencoded") else "ok"
+        { agree := m == o, specOk := specP host want wantQuery outs,
+          known := (if f10a up then "F10a" else if f10b up then "F10b" else "-"),
+          tag := s!"P:{cls}:ph{nph.min 4}{if keepsSlash (pathPart pattern) then "+slash" else ""}{if wantQuery.isEmpty then "" else "+query"}{if m == "ERR" then "+refused" else ""}",
+          model := m }
+    | _, _ => odd "nested-braces"
+  | _, _ => { agree := m == o, specOk := true, tag := "~P:input-refused", model := m }
+
 def run (ins outs : List String) : Verdict :=
   match ins, outs with
-  | ["P", joined, patPath, names, vals, _, _], [path, same] =>
-    match decField joined, decField patPath, decPairs names vals, decField path with
-    | some j, some pp, some params, some p =>
-      -- once every placeholder is substituted the server sees exactly this escaped path
-      let sameOk := same == "1" || !braceFree p
-      let slash : Bytes := if keepsSlash pp then [47] else []
-      let m := urlPath j pp params
-      match tokenize j with
-      | some toks =>
-        let distinct := (params.map (·.1)).eraseDups.length == params.length
-        let namesOk := params.all fun kv => braceFree kv.1
-        if distinct && namesOk then
-          let spec := substAll params toks ++ slash
-          -- F10a (known finding): a built path that starts with "//" (empty value for a placeholder in
-          -- the first segment, no base path) is re-parsed by http.NewRequest as an authority: the
-          -- whole path is lost. The model's `urlPath` is what the code hands to NewRequest.
-          let f10a := m.take 2 == [47, 47]
-          { agree := m == p || f10a, specOk := spec == p && sameOk, known := (if f10a then "F10a" else "-"),
-            tag := s!"P:ph{(toks.filter fun t => match t with | .ph _ => true | _ => false).length.min 4}{if slash.isEmpty then "" else "+slash"}",
-            model := encField m }
-        else
-          { agree := (perms params).any (fun o => urlPath j pp o == p), specOk := true, tag := "~P:odd-names", model := encField m }
-      | none =>
-        { agree := (perms params).any (fun o => urlPath j pp o == p), specOk := true, tag := "~P:nested-braces", model := encField m }
-    | _, _, _, _ => .bad "P fields"
-  | ["P", joined, patPath, names, vals, _, _], ["ERR"] =>
-    -- http.NewRequest refused the built string: known for the F10a class (a path starting with "//"
-    -- is read as an authority, and what follows may not be a valid host), a violation otherwise
-    match decField joined, decField patPath, decPairs names vals with
-    | some j, some pp, some params =>
-      let m := urlPath j pp params
-      let f10a := m.take 2 == [47, 47]
-      { agree := f10a, specOk := false, known := (if f10a then "F10a" else "-"), tag := "P:request-refused", model := encField m }
-    | _, _, _ => .bad "P fields"
-  | ["Q", bk, bv, pk, pv, ck, cv], [ok, ov] =>
+  | ["P", host, base, pattern, names, vals, ck, cv], outs =>
+    match decField host, decField base, decField pattern, decPairs names vals, decValues ck cv with
+    | some h, some b, some pat, some params, some caller => judgeP h b pat params caller outs
+    | _, _, _, _, _ => .bad "P fields"
+  | ["Q", bk, bv, pk, pv, ck, cv], [ok, ov, rq] =>
     match decValues bk bv, decValues pk pv, decValues ck cv with
     | some b, some p, some c =>
+      -- the model's RawQuery (Values.Encode of the merged parameters) and its reading as a map
+      let mq := encField (GoQuery.encode (finalQuery b p c))
       let m := encValues (finalQuery b p c)
-      -- Spec: caller over pattern over base path, by key
-      let keys := (b.map (·.1) ++ p.map (·.1) ++ c.map (·.1)).eraseDups
-      let spec : Values := keys.filterMap fun k =>
-        match Values.get c k with
-        | some v => some (k, v)
-        | none => match Values.get p k with
-          | some v => some (k, v)
-          | none => (Values.get b k).map fun v => (k, v)
       let o := ok ++ " " ++ ov
-      { agree := m == o, specOk := encValues spec == o,
-        tag := s!"Q:b{b.length.min 2}p{p.length.min 2}c{c.length.min 2}", model := m }
+      { agree := m == o && mq == rq, specOk := encValues (specQuery b p c) == o,
+        tag := s!"Q:b{b.length.min 2}p{p.length.min 2}c{c.length.min 2}", model := m ++ " " ++ mq }
     | _, _, _ => .bad "Q fields"
   | ["S", rs, os], [scheme] =>
     match decList rs, decList os, decField scheme with
@@ -255,6 +401,14 @@ def run (ins outs : List String) : Verdict :=
       let mu := match GoURL.unescape q b with | some u => "ok:" ++ encField u | none => "err"
       { agree := m == e && mu == unesc, specOk := true, tag := "E:" ++ mode, model := encField m ++ " " ++ mu }
     | _, _ => .bad "E fields"
+  | ["U", s], outs =>
+    -- validation of the hand model of url.Parse (RtVerif/Base/GoURLParse.lean)
+    match decField s with
+    | some b =>
+      let m := encURL (GoURLParse.parse b)
+      let o := " ".intercalate outs
+      { agree := m == o, specOk := true, tag := "U:" ++ urlTag b (GoURLParse.parse b), model := m }
+    | none => .bad "U fields"
   | _, ["PANIC", msg] => { agree := false, specOk := false, tag := "panic", model := "impl panicked: " ++ msg }
   | _, _ => .bad "C10 stream"
 
